@@ -819,7 +819,7 @@ func (x *tr) expr(e ast.Expr) string {
 		if x.t.strict && k != x.kindOf(z.Y) {
 			x.bad(z, "operands of different translated types")
 		}
-		if x.t.strict && (z.Op == token.SHR || z.Op == token.SHL || z.Op == token.ADD || z.Op == token.SUB || z.Op == token.MUL) && k == "Z" {
+		if x.t.strict && (z.Op == token.SHR || z.Op == token.SHL || z.Op == token.ADD || z.Op == token.SUB || z.Op == token.MUL || z.Op == token.QUO) && k == "Z" {
 			// fixed-width arithmetic: + - << can wrap in Go, the translation is on Z.  Accepted on int / int64
 			// (unbounded by the convention of DESIGN.md 2.1); >> never wraps but needs a count >= 0
 			lt, _ := x.p.TypesInfo.TypeOf(z.X).Underlying().(*types.Basic)
@@ -836,6 +836,12 @@ func (x *tr) expr(e ast.Expr) string {
 				return "(Z.shiftr " + a + " " + b + ")"
 			case token.SHL:
 				x.bad(z, "left shift (can overflow)")
+			case token.QUO:
+				tv, isC := x.p.TypesInfo.Types[z.Y]
+				if !wide || !isC || tv.Value == nil || constant.Sign(tv.Value) <= 0 {
+					x.bad(z, "division other than of an int by a positive constant")
+				}
+				return "(Z.quot " + a + " " + b + ")" // Go truncates toward zero
 			default:
 				if !wide {
 					x.bad(z, "arithmetic on a fixed-width type narrower than int (can wrap)")
@@ -1051,6 +1057,9 @@ func (x *tr) expr(e ast.Expr) string {
 					return "(to_lower " + x.expr(z.Args[0]) + ")"
 				}
 			case "make":
+				if x.kindOf(z) == "gslice" && len(z.Args) == 3 && x.kindOf(z.Args[1]) == "Z" && x.kindOf(z.Args[2]) == "Z" {
+					return x.partial("sl_make " + paren(x.expr(z.Args[1])) + " " + paren(x.expr(z.Args[2])))
+				}
 				if x.kindOf(z) == "hslice" && len(z.Args) == 2 && x.kindOf(z.Args[1]) == "Z" {
 					r := x.partial(fmt.Sprintf("h_make %s %s %s", x.use("heap_"), paren(x.expr(z.Args[1])), x.use("h_zero")))
 					return x.letPair(r, "heap_")
@@ -1404,8 +1413,8 @@ func (x *tr) abrupt(stmts []ast.Stmt) bool {
 				case "panic", "os.Exit", "strings.Repeat", "copy":
 					found = true
 				default:
-					if cs, ok := x.t.calls[key]; ok && (cs.tail != "" || cs.partial) {
-						found = true
+					if cs, ok := x.t.calls[key]; ok && (cs.tail != "" || cs.partial || cs.bres) {
+						found = true // (a callee that can panic ends this function too)
 					}
 				}
 			case *ast.SliceExpr:
@@ -1498,6 +1507,9 @@ func (x *tr) effectCallWith(c *ast.CallExpr, cs callSpec, lhs []string, n ast.No
 			back := "let '" + patTuple(cs.sub) + " := st_ in "
 			if len(cs.sub) == 1 {
 				back = "let " + cs.sub[0] + " := st_ in "
+			}
+			if len(cs.sub) == 0 {
+				back = "" // an oracle without state of its own
 			}
 			resPat := "_"
 			if len(lhs) > 0 {
